@@ -47,4 +47,53 @@ def nextWhere {ε : Type} (p : Nat → Except ε Bool) : List Nat → Except ε 
     | .ok true => .ok (some k)
     | .ok false => nextWhere p ks
 
+/-! ### NumPy idioms of `represent_distance_matrix_rows_as_distributions` -/
+
+/-- `M + 1j * np.arange(len(M))[:, None]`, flattened row-major (as `np.unique` flattens its argument): the complex number
+    `M[r][c] + r·j` is the pair `(M[r][c], r)` (real part, imaginary part); `tagRowsFrom r0` numbers the rows from `r0` -/
+def tagRowsFrom : Nat → List (List Nat) → List (Nat × Nat)
+  | _, [] => []
+  | r, row :: rest => row.map (fun x => (x, r)) ++ tagRowsFrom (r + 1) rest
+
+def tagRows (M : List (List Nat)) : List (Nat × Nat) := tagRowsFrom 0 M
+
+/-- NumPy's order of complex numbers: by real part, then by imaginary part -/
+def cpxLt (a b : Nat × Nat) : Bool := a.1 < b.1 || (a.1 == b.1 && a.2 < b.2)
+
+/-- insertion into a sorted duplicate-free list -/
+def insertUniq {α : Type} [DecidableEq α] (lt : α → α → Bool) (x : α) : List α → List α
+  | [] => [x]
+  | y :: ys => if lt x y then x :: y :: ys else if x = y then y :: ys else y :: insertUniq lt x ys
+
+/-- the sorted distinct values of a flattened array: the first component of `np.unique(a, return_counts=True)` -/
+def uniqueSorted {α : Type} [DecidableEq α] (lt : α → α → Bool) (l : List α) : List α := l.foldr (insertUniq lt) []
+
+/-- `np.unique(a, return_counts=True)` of the flattened array `l`: its distinct values in increasing order, and for each the
+    number of its occurrences -/
+def uniqueCounts {α : Type} [BEq α] [DecidableEq α] (lt : α → α → Bool) (l : List α) : List α × List Nat :=
+  (uniqueSorted lt l, (uniqueSorted lt l).map (fun x => l.count x))
+
+/-- `np.zeros((a, b), dtype=<integer type>)` -/
+def zeros2 (a b : Nat) : List (List Nat) := List.replicate a (List.replicate b 0)
+
+/-- one assignment `M[r, c] = v` with `r ≥ 0`: a negative `c` (NumPy would wrap around) is flagged, not modelled -/
+def scatterStep (M : List (List Nat)) (r : Nat) (c : Int) (v : Nat) : Except PyErr (List (List Nat)) :=
+  if c < 0 then .error PyErr.negativeIndex else
+  match M[r]? with
+  | none => .error PyErr.indexError
+  | some row => if c.toNat < row.length then .ok (M.set r (row.set c.toNat v)) else .error PyErr.indexError
+
+/-- `M[(rows, cols)] = vals` (integer-array indexing with a pair of index arrays): the assignments `M[rows[k], cols[k]] =
+    vals[k]` in order of `k` (a later one overwrites an earlier one); index arrays of different lengths do not broadcast -/
+def scatter2 : List (List Nat) → List Nat → List Int → List Nat → Except PyErr (List (List Nat))
+  | M, [], [], [] => .ok M
+  | M, r :: rs, c :: cs, v :: vs =>
+    match scatterStep M r c v with
+    | .error e => .error e
+    | .ok M' => scatter2 M' rs cs vs
+  | _, _, _, _ => .error PyErr.valueError
+
+/-- `M[:, :-1]` -/
+def dropLastCol (M : List (List Nat)) : List (List Nat) := M.map List.dropLast
+
 end PersimVerif.SrcNp
